@@ -149,6 +149,18 @@ enum Query {
     /// a module function whose result is the value of a field of the output message:
     /// (text of the call, the field it must agree with, literal; None = `defined <call>`)
     Func(String, Vec<Step>, Option<Sc>),
+    /// for <quantifier> x in <array> : (x<sub> == lit)
+    For(Quant, Vec<Step>, Vec<Step>, Sc),
+    /// for <quantifier> k, v in <map> : (v<sub> == lit); the map's keys as reflection shows them
+    MapFor(Quant, Vec<Step>, Vec<Step>, Vec<Step>, Sc),
+    /// contexts in which undefined, false and true differ
+    Not(Box<Query>), IsDefined(Box<Query>), OrFalse(Box<Query>), AndTrue(Box<Query>),
+}
+#[derive(Clone, Copy, Debug)]
+enum Quant { Any, All, None, N(i64), Pct(i64) }
+impl Quant {
+    fn text(&self) -> String { match self { Quant::Any => "any".into(), Quant::All => "all".into(), Quant::None => "none".into(), Quant::N(c) => format!("{}", c), Quant::Pct(p) => format!("{}%", p) } }
+    fn coq(&self) -> String { match self { Quant::Any => "QtAny".into(), Quant::All => "QtAll".into(), Quant::None => "QtNone".into(), Quant::N(c) => format!("(QtN {})", coq_z(*c as i128)), Quant::Pct(p) => format!("(QtPct {})", coq_z(*p as i128)) } }
 }
 
 fn str_lit(b: &[u8]) -> String {
@@ -190,6 +202,12 @@ fn query_text(module: &str, q: &Query) -> String {
         Query::Contains(p, x) => format!("{} contains {}", path_text(module, p), str_lit(x)),
         Query::StartsWith(p, x) => format!("{} startswith {}", path_text(module, p), str_lit(x)),
         Query::EndsWith(p, x) => format!("{} endswith {}", path_text(module, p), str_lit(x)),
+        Query::For(qt, p, sub, l) => format!("for {} x in {} : ({})", qt.text(), path_text(module, p), eq_text(&sub_text("x", sub), l)),
+        Query::MapFor(qt, p, _, sub, l) => format!("for {} k, v in {} : ({})", qt.text(), path_text(module, p), eq_text(&sub_text("v", sub), l)),
+        Query::Not(q) => format!("not ({})", query_text(module, q)),
+        Query::IsDefined(q) => format!("defined ({})", query_text(module, q)),
+        Query::OrFalse(q) => format!("(({}) or false)", query_text(module, q)),
+        Query::AndTrue(q) => format!("(({}) and true)", query_text(module, q)),
         Query::Func(call, _, Some(l)) => eq_text(call, l),
         Query::Func(call, _, None) => format!("defined {}", call),
         Query::MapAny(p, k, sub, l) => format!("for any k, v in {} : (k == {} and {})", path_text(module, p),
@@ -214,6 +232,42 @@ fn coq_lit(l: &Sc, it: &mut Interner) -> String {
         Sc::B(b) => format!("(LB {})", coq_bool(*b)), Sc::S(s) => format!("(LS {})", coq_n(it.id(s))),
     }
 }
+/// the keys (as conditions see them) of the map a path leads to in this message; no such map = no keys
+fn map_keys_at(msg: &dyn MessageDyn, p: &[Step]) -> Vec<Step> {
+    let md = msg.descriptor_dyn();
+    let Some(Step::Field(name)) = p.first() else { return vec![] };
+    let Some(fd) = md.fields().find(|f| !ignored(f) && &yara_name(f) == name) else { return vec![] };
+    let key_of = |k: &ReflectValueRef| match scalar_of(k) { Some(Sc::I(i)) => Some(Step::KeyI(i)), Some(Sc::S(s)) => Some(Step::KeyS(s)), _ => None };
+    match fd.runtime_field_type() {
+        RuntimeFieldType::Map(_, _) => {
+            let m = fd.get_map(msg);
+            if p.len() == 1 { return (&m).into_iter().filter_map(|(k, _)| key_of(&k)).collect(); }
+            let want = &p[1];
+            for (k, v) in &m {
+                let same = match (key_of(&k), want) { (Some(Step::KeyI(a)), Step::KeyI(b)) => a == *b, (Some(Step::KeyS(a)), Step::KeyS(b)) => &a == b, _ => false };
+                if same { if let ReflectValueRef::Message(sub) = v { return map_keys_at(&*sub, &p[2..]); } }
+            }
+            vec![]
+        }
+        RuntimeFieldType::Repeated(_) => {
+            if let Some(Step::Index(i)) = p.get(1) {
+                if *i >= 0 { if let Some(ReflectValueRef::Message(sub)) = fd.get_repeated(msg).into_iter().nth(*i as usize) { return map_keys_at(&*sub, &p[2..]); } }
+            }
+            vec![]
+        }
+        RuntimeFieldType::Singular(_) => match fd.get_singular(msg) { Some(ReflectValueRef::Message(sub)) => map_keys_at(&*sub, &p[1..]), _ => vec![] },
+    }
+}
+/// a shared query specialised to the message of one scan (the key lists of map loops)
+fn for_message(q: &Query, msg: &dyn MessageDyn) -> Query {
+    match q {
+        Query::MapFor(qt, p, _, sub, l) => Query::MapFor(*qt, p.clone(), map_keys_at(msg, p), sub.clone(), l.clone()),
+        Query::Not(x) => Query::Not(Box::new(for_message(x, msg))), Query::IsDefined(x) => Query::IsDefined(Box::new(for_message(x, msg))),
+        Query::OrFalse(x) => Query::OrFalse(Box::new(for_message(x, msg))), Query::AndTrue(x) => Query::AndTrue(Box::new(for_message(x, msg))),
+        other => other.clone(),
+    }
+}
+
 fn coq_query(q: &Query, it: &mut Interner) -> String {
     match q {
         Query::Defined(p) => format!("QDefined {}", coq_steps(p, it)),
@@ -225,6 +279,15 @@ fn coq_query(q: &Query, it: &mut Interner) -> String {
         Query::Contains(p, x) => format!("QContains {} {}", coq_steps(p, it), coq_bytes(x)),
         Query::StartsWith(p, x) => format!("QStartsWith {} {}", coq_steps(p, it), coq_bytes(x)),
         Query::EndsWith(p, x) => format!("QEndsWith {} {}", coq_steps(p, it), coq_bytes(x)),
+        Query::For(qt, p, sub, l) => format!("QFor {} {} {} {}", qt.coq(), coq_steps(p, it), coq_steps(sub, it), coq_lit(l, it)),
+        Query::MapFor(qt, p, keys, sub, l) => {
+            let ks: Vec<String> = keys.iter().map(|k| match k { Step::KeyI(i) => format!("VInt {}", coq_z(*i as i128)), Step::KeyS(b) => format!("VStr {}", coq_n(it.id(b))), _ => unreachable!() }).collect();
+            format!("QMapFor {} {} [{}] {} {}", qt.coq(), coq_steps(p, it), ks.join("; "), coq_steps(sub, it), coq_lit(l, it))
+        }
+        Query::Not(q) => format!("QNot ({})", coq_query(q, it)),
+        Query::IsDefined(q) => format!("QIsDefined ({})", coq_query(q, it)),
+        Query::OrFalse(q) => format!("QOrFalse ({})", coq_query(q, it)),
+        Query::AndTrue(q) => format!("QAndTrue ({})", coq_query(q, it)),
         Query::Func(_, p, Some(l)) => format!("QEq {} {}", coq_steps(p, it), coq_lit(l, it)),
         Query::Func(_, p, None) => format!("QDefined {}", coq_steps(p, it)),
         Query::MapAny(p, k, s, l) => {
@@ -302,6 +365,25 @@ fn leaf_queries(p: &[Step], v: Option<Sc>, rt: &RuntimeType, out: &mut Vec<Query
 }
 
 /// every observable path of a message (present or absent), depth-limited
+/// every quantifier over a collection, each in a context where undefined / false / true differ;
+/// `empty`: the collection has no items (the zero-iteration case: all contexts are generated)
+fn loop_queries(mk: &dyn Fn(Quant) -> Query, empty: bool, rng: &mut Rng, out: &mut Vec<Query>) {
+    for qt in [Quant::Any, Quant::All, Quant::None, Quant::N(2), Quant::Pct(50)] {
+        let q = mk(qt);
+        if empty || matches!(qt, Quant::Any) {
+            out.push(q.clone());
+            out.push(Query::Not(Box::new(q.clone())));
+            out.push(Query::IsDefined(Box::new(q.clone())));
+            if empty && matches!(qt, Quant::Any | Quant::None) { out.push(Query::Not(Box::new(Query::OrFalse(Box::new(q.clone()))))); out.push(Query::AndTrue(Box::new(Query::Not(Box::new(q))))); }
+        } else {
+            out.push(match rng.below(5) { 0 => q, 1 => Query::Not(Box::new(q)), 2 => Query::IsDefined(Box::new(q)), 3 => Query::Not(Box::new(Query::OrFalse(Box::new(q)))), _ => Query::AndTrue(Box::new(q)) });
+        }
+    }
+}
+fn first_scalar_field(md: &MessageDescriptor) -> Option<FieldDescriptor> {
+    md.fields().find(|f| !ignored(f) && !fopts(f).acl && matches!(f.runtime_field_type(), RuntimeFieldType::Singular(t) if !matches!(t, RuntimeType::Message(_))))
+}
+
 fn enumerate(md: &MessageDescriptor, msg: Option<&dyn MessageDyn>, prefix: &[Step], depth: usize, rng: &mut Rng, out: &mut Vec<Query>, tmpl: &mut Vec<Query>) {
     if depth > 3 { return; }
     for fd in md.fields() {
@@ -330,6 +412,12 @@ fn enumerate(md: &MessageDescriptor, msg: Option<&dyn MessageDyn>, prefix: &[Ste
                         if let Some(sf) = sub.fields().find(|f| !ignored(f) && matches!(f.runtime_field_type(), RuntimeFieldType::Singular(t) if !matches!(t, RuntimeType::Message(_)))) {
                             let mut q = p.clone(); q.push(Step::Index(0)); q.push(Step::Field(yara_name(&sf)));
                             tmpl.push(Query::Defined(q));
+                            if let (RuntimeFieldType::Singular(st), true) = (sf.runtime_field_type(), true) {
+                                if let Some(l) = default_of(&st) {
+                                    let (pp, ss) = (p.clone(), vec![Step::Field(yara_name(&sf))]);
+                                    loop_queries(&|qt| Query::For(qt, pp.clone(), ss.clone(), l.clone()), true, rng, tmpl);
+                                }
+                            }
                         }
                     }
                     continue;
@@ -350,28 +438,26 @@ fn enumerate(md: &MessageDescriptor, msg: Option<&dyn MessageDyn>, prefix: &[Ste
                         _ => leaf_queries(&q, item.and_then(scalar_of), &rt, out),
                     }
                 }
-                // iteration
-                if let Some(first) = items.first() {
-                    match &rt {
-                        RuntimeType::Message(sub) => {
-                            // x.<first scalar field>
-                            if let (Some(sf), ReflectValueRef::Message(m)) = (sub.fields().find(|f| !ignored(f) && matches!(f.runtime_field_type(), RuntimeFieldType::Singular(t) if !matches!(t, RuntimeType::Message(_)))), first) {
-                                if let Some(l) = sf.get_singular(&**m).as_ref().and_then(scalar_of) {
-                                    if usable(&l) {
-                                        let s = vec![Step::Field(yara_name(&sf))];
-                                        out.push(Query::Any(p.clone(), s.clone(), l.clone()));
-                                        out.push(Query::All(p.clone(), s.clone(), l.clone()));
-                                        out.push(Query::Any(p.clone(), s, other_of(&l)));
-                                    }
-                                }
-                            }
+                // iteration: every quantifier, also (and above all) over a collection without items
+                let (sub, lit): (Vec<Step>, Option<Sc>) = match &rt {
+                    RuntimeType::Message(subm) => match first_scalar_field(subm) {
+                        Some(sf) => {
+                            let from_item = match items.first() { Some(ReflectValueRef::Message(m)) => sf.get_singular(&**m).as_ref().and_then(scalar_of), _ => None };
+                            let dflt = match sf.runtime_field_type() { RuntimeFieldType::Singular(t) => default_of(&t), _ => None };
+                            (vec![Step::Field(yara_name(&sf))], from_item.or(dflt))
                         }
-                        _ => if let Some(l) = scalar_of(first) { if usable(&l) {
-                            out.push(Query::Any(p.clone(), vec![], l.clone()));
-                            out.push(Query::All(p.clone(), vec![], l.clone()));
-                            if let Some(last) = items.last().and_then(scalar_of) { if usable(&last) { out.push(Query::Any(p.clone(), vec![], last.clone())); out.push(Query::All(p.clone(), vec![], last)); } }
-                            out.push(Query::Any(p.clone(), vec![], other_of(&l)));
-                        } }
+                        None => (vec![], None),
+                    },
+                    _ => (vec![], items.first().and_then(scalar_of).or(default_of(&rt))),
+                };
+                if let Some(l) = lit {
+                    if usable(&l) {
+                        let (pp, ss) = (p.clone(), sub.clone());
+                        loop_queries(&|qt| Query::For(qt, pp.clone(), ss.clone(), l.clone()), items.is_empty(), rng, out);
+                        out.push(Query::Any(p.clone(), sub.clone(), l.clone()));
+                        out.push(Query::All(p.clone(), sub.clone(), l.clone()));
+                        out.push(Query::Any(p.clone(), sub.clone(), other_of(&l)));
+                        if sub.is_empty() { if let Some(last) = items.last().and_then(scalar_of) { if usable(&last) { out.push(Query::All(p.clone(), vec![], last)); } } }
                     }
                 }
             }
@@ -379,6 +465,27 @@ fn enumerate(md: &MessageDescriptor, msg: Option<&dyn MessageDyn>, prefix: &[Ste
                 let mref = msg.map(|m| fd.get_map(m));
                 let entries: Vec<(ReflectValueRef, ReflectValueRef)> = match &mref { Some(r) => r.into_iter().collect(), None => vec![] };
                 if msg.is_some() { out.push(Query::Len(p.clone(), entries.len() as i64)); out.push(Query::Len(p.clone(), entries.len() as i64 + 1)); }
+                {
+                    let key_of = |k: &ReflectValueRef| match scalar_of(k) { Some(Sc::I(i)) => Some(Step::KeyI(i)), Some(Sc::S(s)) => Some(Step::KeyS(s)), _ => None };
+                    let all_keys: Vec<Step> = entries.iter().filter_map(|(k, _)| key_of(k)).collect();
+                    let (sub, lit): (Vec<Step>, Option<Sc>) = match &vt {
+                        RuntimeType::Message(subm) => match first_scalar_field(subm) {
+                            Some(sf) => {
+                                let from_item = match entries.first() { Some((_, ReflectValueRef::Message(m))) => sf.get_singular(&**m).as_ref().and_then(scalar_of), _ => None };
+                                let dflt = match sf.runtime_field_type() { RuntimeFieldType::Singular(t) => default_of(&t), _ => None };
+                                (vec![Step::Field(yara_name(&sf))], from_item.or(dflt))
+                            }
+                            None => (vec![], None),
+                        },
+                        _ => (vec![], entries.first().and_then(|(_, v)| scalar_of(v)).or(default_of(&vt))),
+                    };
+                    if let (Some(l), true) = (lit, all_keys.len() == entries.len() && msg.is_some()) {
+                        if usable(&l) {
+                            let (pp, ss, kk) = (p.clone(), sub.clone(), all_keys.clone());
+                            loop_queries(&|qt| Query::MapFor(qt, pp.clone(), kk.clone(), ss.clone(), l.clone()), entries.is_empty(), rng, out);
+                        }
+                    }
+                }
                 let key_step = |k: &ReflectValueRef| match scalar_of(k) { Some(Sc::I(i)) => Some(Step::KeyI(i)), Some(Sc::S(s)) => Some(Step::KeyS(s)), _ => None };
                 let mut keys: Vec<(Step, Option<&ReflectValueRef>)> = entries.iter().filter_map(|(k, v)| key_step(k).map(|s| (s, Some(v)))).collect();
                 if keys.len() > 3 { let i = rng.below(keys.len() as u64 - 1) as usize; keys = vec![keys[0].clone(), keys[i + 1].clone()]; }
@@ -553,8 +660,13 @@ fn run_steps(module: &str, md: &MessageDescriptor, data: &[u8], steps: Vec<(Supp
             q.push(Query::Func("test_proto2.get_foo()".into(), p.clone(), None));
             if let Some(l) = v { q.push(Query::Func("test_proto2.get_foo()".into(), p.clone(), Some(l.clone()))); q.push(Query::Func("test_proto2.get_foo()".into(), p.clone(), Some(other_of(&l)))); }
         }
+        // the loop / context queries have a budget of their own so that plain field reads do not crowd them out
+        let is_loop = |x: &Query| matches!(x, Query::For(..) | Query::MapFor(..) | Query::Not(_) | Query::IsDefined(_) | Query::OrFalse(_) | Query::AndTrue(_));
+        let (mut loops, mut q): (Vec<Query>, Vec<Query>) = q.into_iter().partition(is_loop);
         let budget = max_q / steps.len().max(1) + 1;
         while q.len() > budget { let i = rng.below(q.len() as u64) as usize; q.swap_remove(i); }
+        while loops.len() > budget / 2 + 10 { let i = rng.below(loops.len() as u64) as usize; loops.swap_remove(i); }
+        q.extend(loops);
         for x in q { let key = query_text(module, &x); if seen.insert(key) { queries.push(x); } }
     }
     if queries.is_empty() { return Ok(vec![]); }
@@ -620,11 +732,12 @@ fn run_steps(module: &str, md: &MessageDescriptor, data: &[u8], steps: Vec<(Supp
         for (i, text, idx) in &accepted {
             let v = matched.contains(&format!("q{}", i));
             if v { trues += 1; }
-            qs.push(format!("({}, {}, {})", coq_query(&queries[*i], &mut it), coq_bool(v),
+            qs.push(format!("({}, {}, {})", coq_query(&for_message(&queries[*i], &*msg), &mut it), coq_bool(v),
                 match idx { Some(l) => format!("Some {}", coq_list(l, |x| coq_nat(*x))), None => "None".into() }));
             jq.push(format!("[{},{},{}]", json_str(text), v, match idx { Some(l) => format!("{:?}", l), None => "null".into() }));
             kinds.push(match &queries[*i] { Query::Defined(_) => "q:defined", Query::Eq(..) => "q:eq", Query::Len(..) => "q:len", Query::Any(..) => "q:for-any", Query::All(..) => "q:for-all",
-                Query::MapAny(..) => "q:map-for-any", Query::StrLen(..) => "q:string-len", Query::Contains(..) => "q:contains", Query::StartsWith(..) => "q:startswith", Query::EndsWith(..) => "q:endswith", Query::Func(..) => "q:function" });
+                Query::MapAny(..) => "q:map-for-any", Query::StrLen(..) => "q:string-len", Query::Contains(..) => "q:contains", Query::StartsWith(..) => "q:startswith", Query::EndsWith(..) => "q:endswith", Query::Func(..) => "q:function",
+                Query::For(..) => "q:for-quantifier", Query::MapFor(..) => "q:map-for-quantifier", Query::Not(_) => "q:not(..)", Query::IsDefined(_) => "q:defined(..)", Query::OrFalse(_) | Query::AndTrue(_) => "q:or/and-context" });
         }
         let mut pairs = vec![];
         let mut jp = vec![];
@@ -648,6 +761,59 @@ fn run_steps(module: &str, md: &MessageDescriptor, data: &[u8], steps: Vec<(Supp
     Ok(outs)
 }
 
+/// In block scanning mode no module produces output: every array and map of the module is empty and
+/// every field undefined, for a block scanner created with blocks::Scanner::new as for one converted
+/// from a regular scanner (before and after that scanner has scanned a file).  One condition per
+/// repeated / map field of the root message (len() == 0, for any, defined [0]); the verdicts of the
+/// fresh scanner are paired with those of the converted ones.
+fn block_scanner_case(module: &str, label: &str, rng: &mut Rng) -> Result<Vec<CaseOut>, String> {
+    let md = module_descriptor(module);
+    let mut conds: Vec<String> = vec![];
+    for fd in md.fields() {
+        if ignored(&fd) || fopts(&fd).acl { continue; }
+        let p = format!("{}.{}", module, yara_name(&fd));
+        match fd.runtime_field_type() {
+            RuntimeFieldType::Repeated(_) => { conds.push(format!("{}.len() == 0", p)); conds.push(format!("for any x in {} : (true)", p)); conds.push(format!("not (for any x in {} : (true))", p)); }
+            RuntimeFieldType::Map(_, _) => { conds.push(format!("{}.len() == 0", p)); conds.push(format!("for any k, v in {} : (true)", p)); }
+            RuntimeFieldType::Singular(RuntimeType::Message(sub)) => {
+                for f2 in sub.fields() { if !ignored(&f2) { if let RuntimeFieldType::Repeated(_) = f2.runtime_field_type() { conds.push(format!("{}.{}.len() == 0", p, yara_name(&f2))); } } }
+            }
+            RuntimeFieldType::Singular(_) => { if rng.chance(1, 4) { conds.push(format!("defined {}", p)); } }
+        }
+    }
+    let mut comp = yara_x::Compiler::new();
+    let mut kept = vec![];
+    for (i, c) in conds.iter().enumerate() {
+        if comp.add_source(format!("import \"{}\"\nrule b{} {{ condition: {} }}", module, i, c).as_str()).is_ok() { kept.push((i, c.clone())); }
+    }
+    if kept.is_empty() { return Ok(vec![]); }
+    let rules = comp.build();
+    let data = b"MZ not really an executable, just some data";
+    let verdicts = |mut s: yara_x::blocks::Scanner| -> Result<std::collections::HashSet<String>, String> {
+        s.scan(0, data).map_err(|e| e.to_string())?;
+        let r = s.finish().map_err(|e| e.to_string())?;
+        let v: std::collections::HashSet<String> = r.matching_rules().map(|r| r.identifier().to_string()).collect();
+        Ok(v)
+    };
+    let fresh = verdicts(yara_x::blocks::Scanner::new(&rules))?;
+    let converted = verdicts(yara_x::Scanner::new(&rules).into())?;
+    let converted_after_scan = { let mut s0 = yara_x::Scanner::new(&rules); let _ = s0.scan(data); verdicts(s0.into())? };
+    let (mut pairs, mut jp, mut kinds) = (vec![], vec![], vec![]);
+    for (i, c) in &kept {
+        let n = format!("b{}", i);
+        for (other, how) in [(&converted, "converted"), (&converted_after_scan, "converted after a scan")] {
+            pairs.push(format!("({}, {})", coq_bool(fresh.contains(&n)), coq_bool(other.contains(&n))));
+            jp.push(format!("[{},{},{},{}]", json_str(c), json_str(how), fresh.contains(&n), other.contains(&n)));
+            kinds.push("q:block-scanner-pair");
+        }
+    }
+    let mut it = Interner::new();
+    let ty = coq_msg_ty(&md, &mut it, 0);
+    let coq = format!("mk \"{}\" (fun nm => ({}, (VMsg []), [], [], [{}], []))", module, ty, pairs.join("; "));
+    let json = format!("{{\"label\":{},\"module\":{},\"message_hex\":\"\",\"views\":[],\"queries\":[],\"function_pairs\":[],\"block_scanner_pairs\":[{}]}}", json_str(label), json_str(module), jp.join(","));
+    Ok(vec![CaseOut { label: label.to_string(), coq, json, queries: pairs.len(), skipped: conds.len() - kept.len(), kinds, true_verdicts: 0 }])
+}
+
 fn module_descriptor(module: &str) -> MessageDescriptor {
     let rules = yara_x::compile(format!("import \"{}\" rule x {{ condition: true }}", module).as_str()).unwrap();
     let mut sc = yara_x::Scanner::new(&rules);
@@ -657,7 +823,7 @@ fn module_descriptor(module: &str) -> MessageDescriptor {
 
 // ------------------------------------------------------------------ driver
 #[derive(Clone)]
-enum Job { Builtin { module: String, path: std::path::PathBuf, supply: bool, absent_arrays: bool }, Synthetic(usize) }
+enum Job { Builtin { module: String, path: std::path::PathBuf, supply: bool, absent_arrays: bool }, Synthetic(usize), BlockScanners(&'static str) }
 
 fn jobs(samples: &Option<String>, n: usize) -> Vec<Job> {
     let mut v = vec![];
@@ -677,6 +843,8 @@ fn jobs(samples: &Option<String>, n: usize) -> Vec<Job> {
             }
         }
     }
+    // block scanning: no module produces output, whichever way the block scanner was obtained
+    for m in ["test_proto2", "pe", "elf", "macho", "dotnet", "lnk"] { v.push(Job::BlockScanners(m)); }
     for i in 0..n { v.push(Job::Synthetic(i)); }
     v
 }
@@ -695,6 +863,7 @@ fn job_label(j: &Job) -> String {
         Job::Builtin { module, path, supply, absent_arrays } => format!("{} {}",
             if *absent_arrays { format!("absent-message-array:{}", module) } else { format!("builtin:{}:{}", module, if *supply { "supplied" } else { "computed" }) },
             path.file_name().unwrap().to_string_lossy()),
+        Job::BlockScanners(m) => format!("block-scanner:fresh-vs-converted:{}", m),
         Job::Synthetic(i) => format!("synthetic:{} #{}", if i % 4 == 3 { "test_proto3" } else { "test_proto2" }, i),
     }
 }
@@ -733,6 +902,7 @@ fn child(args: &[String]) -> i32 {
                 } else { vec![(Supply::Computed, lab.clone())] };
                 run_steps(module, &md, &data, steps, &mut rng, max_q, *absent_arrays, *supply)
             }
+            Job::BlockScanners(module) => block_scanner_case(module, &label, &mut rng),
             Job::Synthetic(i) => {
                 let (module, md) = if i % 4 == 3 { ("test_proto3", &d3) } else { ("test_proto2", &d2) };
                 let mut mk_msg = |rng: &mut Rng, empty: bool| {
